@@ -63,10 +63,21 @@ SUFFIX = dict(plain="", gz=".gz", gzmulti=".gz", bz2=".bz2", xz=".xz", zst=".zst
 
 def write_inputs(wd, fmt, layout, cont):
     r1, r2 = reads()
-    if fmt == "fasta":
+    if fmt in ("fasta", "fasta-wrapped"):
         r1 = [(n, s, None) for n, s, q in r1 if s]
         r2 = [(n, s, None) for n, s, q in r2 if s]
         text = clih.fasta_text
+        if fmt == "fasta-wrapped":
+            # the same records in another valid FASTA layout: a leading comment line, a comment line between records, sequences
+            # wrapped at 7 characters
+            def text(recs):
+                out = ["# written by the harness"]
+                for k, (n, s_, _) in enumerate(recs):
+                    if k == 3:
+                        out.append("# another comment")
+                    out.append(">" + n)
+                    out += [s_[j:j + 7] for j in range(0, len(s_), 7)]
+                return "\n".join(out) + "\n"
         ext = ".fa"
     else:
         text = clih.fastq_text
@@ -100,6 +111,12 @@ def configurations(tier):
                                     continue  # FASTQ cannot be written without qualities
                                 for cores in (1, 2):
                                     C.append(dict(fmt=fmt, oi=oi, layout=layout, out_il=out_il, ic=ic, oc=oc, ext=ext, cores=cores))
+    # FASTA in another valid layout (comment lines, wrapped sequences): the records of the standard layout must come out
+    for layout in LAYOUTS:
+        for ic in ("plain", "gz"):
+            for ext in ("", ".fa"):
+                for cores in (1, 2):
+                    C.append(dict(fmt="fasta-wrapped", oi=0, layout=layout, out_il=False, ic=ic, oc="", ext=ext, cores=cores))
     return C
 
 
@@ -173,9 +190,10 @@ def run_config(c, wd, use_cache=True):
 
 
 def reference(c, wd):
-    key = (c["fmt"], c["oi"], c["layout"], c["out_il"])
+    fmt = "fasta" if c["fmt"] == "fasta-wrapped" else c["fmt"]
+    key = (fmt, c["oi"], c["layout"], c["out_il"])
     if key not in _REF:
-        base = dict(c, ic="plain", oc="", ext="", cores=1)
+        base = dict(c, fmt=fmt, ic="plain", oc="", ext="", cores=1)
         _REF[key] = run_config(base, wd)
     return _REF[key]
 
@@ -211,14 +229,14 @@ def run_shard(d):
             continue
         ex, out, argv, errs = run_config(c, wd)
         shown = [a if not a.startswith("/") else os.path.basename(a) for a in argv]
-        if (c["ic"], c["oc"], c["ext"], c["cores"]) != ("plain", "", "", 1):
+        if (c["ic"], c["oc"], c["ext"], c["cores"], c["fmt"]) != ("plain", "", "", 1, c["fmt"].split("-")[0]):
             res["nontrivial"] += 1
         sig_cfg = f"{c['fmt']}:{c['layout']}:{'j2' if c['cores'] > 1 else 'j1'}"
         if ex != 0:
             V.append((f"failed:{sig_cfg}", f"run failed ({ex}: {str(errs[0])[:150]}) although the plain / one-core run of the same data succeeds",
                       dict(case, argv=shown)))
             continue
-        want_fmt = "fasta" if c["ext"] in (".fasta", ".fa") else ("fastq" if c["ext"] in (".fastq", ".fq") else c["fmt"])
+        want_fmt = "fasta" if c["ext"] in (".fasta", ".fa") else ("fastq" if c["ext"] in (".fastq", ".fq") else c["fmt"].split("-")[0])
         for role in rout:
             if role not in out:
                 V.append((f"missing:{sig_cfg}", f"output file {role} missing", dict(case, argv=shown)))
@@ -384,8 +402,8 @@ def do_stdin(wd, res):
                 res["evals"] += 1
                 res["nontrivial"] += 1
                 with open(path, "rb") as fh:
-                    r = subprocess.run([common.PY, "-m", "cutadapt", "-j", str(cores), "-a", "ad=ACGTACGG", "-o", out, "-"], stdin=fh,
-                                       stdout=subprocess.PIPE, stderr=subprocess.PIPE, timeout=60)
+                    r = common.run_group([common.PY, "-m", "cutadapt", "-j", str(cores), "-a", "ad=ACGTACGG", "-o", out, "-"], timeout=60,
+                                         stdin=fh)
                 case = dict(format=fmt, container=cont, cores=cores, argv=["-j", str(cores), "-a", "ad=ACGTACGG", "-o", "out", "-"])
                 if r.returncode != 0:
                     V.append(("stdin:failed", f"reading from standard input failed: {r.stderr.decode()[-150:]}", case))
@@ -410,7 +428,7 @@ def do_stdout(wd, res):
                     argv = ["-j", str(cores)] + flag + ["-a", "ad=ACGTACGG"] + (["--interleaved", "-A", "bd=ACGTACGG"] if layout != "single" else []) + paths
                     res["evals"] += 1
                     res["nontrivial"] += 1
-                    r = subprocess.run([common.PY, "-m", "cutadapt"] + argv, stdout=subprocess.PIPE, stderr=subprocess.PIPE, timeout=60)
+                    r = common.run_group([common.PY, "-m", "cutadapt"] + argv, timeout=60)
                     shown = [a if not a.startswith("/") else os.path.basename(a) for a in argv]
                     if r.returncode != 0:
                         V.append(("stdout:failed", f"exit {r.returncode}: {r.stderr.decode()[-150:]}", dict(argv=shown)))
